@@ -5,10 +5,26 @@ V = os.path.dirname(os.path.dirname(os.path.abspath(__file__)))
 props = [json.loads(l)['id'] for l in open(os.path.join(V, 'properties.jsonl'))]
 
 CLAIMED = {
+ 'C03': dict(
+   text="Theorem C03_shape (Coq): for ANY operator tables, constants, flag set without --redactFieldNames, encryption on or off, and any object tree without duplicate sibling keys, shape_of (redact_tree t) = shape_of t (keys, order, array lengths, leaf kinds), derived from the three-way refinement relation rel3 proved by induction over all trees for the three walkers and lifted to whole lines (line_rel3). C03_keys: keys along every index path are unchanged. The model is tied to the code by comparing the shape projection of the extracted model's output with the implementation's on grammar lines, arbitrary JSON trees and every value kind under every operator/wrapper; an independent ordered-tree diff runs on the implementation.",
+   note="Tree-level theorem; that the printer emits one physical line which parses back to the same tree is validated by the byte-level correspondence on every run (codec theorem in progress). Walkers, line logic and text layer are hand-written models tied by the correspondence; tables are regenerated.",
+   technique="Coq proof by induction over JSON trees (refinement relation) + extracted-model correspondence", ref="6/C03"),
  'C13': dict(
    text="Theorems in Coq over the executable model of HashName (SHA-256 defined in Gallina): '$'-invariance, component-wise mapping of dotted paths, the <replacement>_<16 hex> format for every input, reduction of pseudonym collisions to collisions of the 8-byte digest prefix, and injectivity on the finite dictionary by kernel computation (length<=2 in the quick build, length<=3 sharded in the thorough tier). The model is tied to the code by running hash_name / SHA-256 of the extracted model against HashName / crypto/sha256 on generated names, and the oracle (format, '$', component-wise, two processes, shuffled order, dictionary injectivity, CLI -w) runs on the implementation.",
    note="Global collision-freeness of a 64-bit truncation is false by counting; proved on the finite dictionary (bound in the statement) and otherwise reduced to digest-prefix collisions. Sha256.v is hand-written and validated against crypto/sha256 on every run. Trusted: Coq kernel (vm_compute), extraction (ExtrOcamlBasic, ExtrOcamlNativeString), harness and comparators.",
    technique="Coq proof (induction + kernel computation on a finite dictionary) + extracted-model correspondence", ref="6/C13"),
+ 'C04': dict(
+   text="Frame theorems in Coq for the model of RedactMongoLog / redactCommand (any tables, any actions, every flag set): every top-level member other than attr is emitted as is; inside attr only remote / originatingCommand / cmd / command / planSummary / ns can change; inside a command document only the query-bearing keys and (with --redactNamespaces) the namespace keys; ungated lines with IP and namespace redaction off are returned as the same tree; keys and order are kept everywhere; $limit/$skip-style arguments are kept wherever the query or pipeline walker meets them for any tables that classify them Exempt, and the regenerated tables do (TablesOK_kept, by computation, incl. $sample, $search.index, $vectorSearch.{index,numCandidates,limit}); number leaves are printed as their literal text. Tied to the code by comparing the non-zone projection (zones masked by an independent key-path predicate) of model and implementation outputs on arbitrary JSON lines of all components; the oracle compares the masked trees with number literals as text.",
+   note="Strings are compared after JSON unescaping; invalid UTF-8 / lone surrogates (replaced by U+FFFD by encoding/json) are outside the claim. The text-level parse/print round trip is validated by correspondence, not yet proved.",
+   technique="Coq frame lemmas over the line model + table obligation by kernel computation + extracted-model correspondence", ref="6/C04"),
+ 'C05': dict(
+   text="Theorem C05_leafwise (Coq): for any tables, any flag set without --redactFieldNames and every tree, every leaf of the input is found at the same position of the placeholder-mode output either unchanged or replaced by the constant of its class (an e-mail-shaped string never by the generic text, any other string by exactly --replacement, numbers by RedactedNumber, booleans by RedactedBoolean); C05_class_rule gives the context rule of the scalar step ($date / $oid / $binary.base64 by key path, e-mail by shape); consts_ok (regenerated constants: ISO-8601 instant, 24 hex digits, decodable base64, e-mail-shaped, 0, false) and tables_ok_binary by kernel computation. Correspondence through the changed-leaf projection on grammar lines x replacement strings; independent class validators run on the implementation's output.",
+   note="Class by context is claimed for direct members of $date / $oid / $binary.base64; array elements are classified by value. That an arbitrary --replacement survives serialisation is checked by the byte-level correspondence and the oracle (codec theorem in progress).",
+   technique="Coq proof by induction over JSON trees (refinement relation) + constant/table obligations by computation + correspondence", ref="6/C05"),
+ 'C10': dict(
+   text="Theorem C10_modes (Coq): for any tables, any flag set without --redactFieldNames and ANY encryption function, placeholder-mode and encrypt-mode outputs of the same tree have the same shape and at every leaf position are equal, or placeholder mode emitted a class placeholder ph for string s and encrypt mode emitted redactString(s, ph) (the ciphertext of that same s; ph itself when encryption fails: C10_fail_closed). C10_injective: decryptability implies distinct plaintexts give distinct ciphertexts. Determinism is functionality of the model. Correspondence through the set of positions at which the two modes differ; the oracle decrypts every differing leaf with the implementation's Decrypt, checks equal/unequal plaintext <-> ciphertext across lines and runs, injects unusable keys through the API, and runs two CLI processes with one key file.",
+   note="AES-SIV is abstract (the theorem quantifies over every encryption function); cryptographic strength is not modelled. Key loaded once per run is exercised through the CLI stream.",
+   technique="Coq proof (two-configuration refinement relation, induction over trees) + correspondence", ref="6/C10"),
 }
 
 def main():
